@@ -28,6 +28,8 @@ from torchtree.core.parameter import Parameter, TransformedParameter  # noqa: E4
 from torchtree.core.serializable import JSONSerializable  # noqa: E402
 from torchtree.distributions.distributions import Distribution  # noqa: E402
 from torchtree.distributions.joint_distribution import JointDistributionModel  # noqa: E402
+from torchtree.evolution.taxa import Taxa, Taxon  # noqa: E402
+from torchtree.evolution.tree_model_flexible import FlexibleTimeTreeModel  # noqa: E402
 
 MAXLEN = int(os.environ.get('C13_MAXLEN', '2'))
 SMALL_DOMAIN = ('p', 'q', 'pq')  # ids that become attribute names (Container members): concretised
@@ -75,8 +77,40 @@ class C13Picky(JSONSerializable):
         return cls(data['id'])
 
 
+class C13S(JSONSerializable):
+    """Minimal *self-registering* model class (the pattern of the real FlexibleTimeTreeModel): from_json
+    processes the optional child `pre` first, then -- after the same guard the real class has -- puts the
+    new object into the registry under its own id, and only then processes `x` and `children`, so that a
+    (transitively) nested object can refer back to it by id."""
+
+    KNOWN_KEYS = ('id', 'type', 'pre', 'x', 'children', 'ignore')
+
+    def __init__(self, id_, pre, extra=0):
+        self.id = id_
+        self.pre = pre
+        self.x = None
+        self.children = []
+        self.payload = 0
+        self.extra = extra
+
+    @classmethod
+    def from_json(cls, data, dic):
+        id_ = data['id']
+        pre = U.process_object(data['pre'], dic) if 'pre' in data else None
+        if id_ in dic:  # tree_model_flexible.py: `if id_ in dic: raise JSONParseError(...)` before dic[id_] = tree_model
+            raise U.JSONParseError('Object with ID `{}\' already exists'.format(id_))
+        obj = cls(id_, pre, len([k for k in data if k not in cls.KNOWN_KEYS]))
+        dic[id_] = obj
+        if 'x' in data:
+            obj.x = U.process_object(data['x'], dic)
+        if 'children' in data:
+            obj.children = U.process_objects(data['children'], dic)
+        return obj
+
+
 U.register_class(C13N, 'C13N')
 U.register_class(C13Picky, 'C13Picky')
+U.register_class(C13S, 'C13S')
 
 
 # ------------------------------------------------------------------ registry that keeps keys symbolic
@@ -205,6 +239,12 @@ def NI(i, flag, **kw):  # node carrying an `ignore` marker
     return d
 
 
+def SR(i, **kw):  # self-registering node
+    d = {'id': i, 'type': 'C13S'}
+    d.update(kw)
+    return d
+
+
 def PICKY(i, need):
     return {'id': i, 'type': 'C13Picky', 'need': need}
 
@@ -221,6 +261,24 @@ def D(i, x, **params):
     d = {'id': i, 'type': 'Distribution', 'distribution': 'torch.distributions.Exponential', 'x': x}
     d['parameters'] = params if params else {'rate': 1.0}
     return d
+
+
+def TAXA(i):
+    return {'id': i, 'type': 'Taxa', 'taxa': [{'id': n, 'type': 'Taxon', 'attributes': {'date': 0.0}}
+                                              for n in ('taxonA', 'taxonB', 'taxonC')]}
+
+
+def FT(i, heights, taxa=None):
+    """the real self-registering class: taxa are processed before, internal_heights after it registers itself"""
+    return {'id': i, 'type': 'FlexibleTimeTreeModel', 'newick': '((taxonA:1,taxonB:1):1,taxonC:2);',
+            'taxa': TAXA('taxa00') if taxa is None else taxa, 'internal_heights': heights}
+
+
+def TPH(i, tree, x):
+    """node-height transform that needs the tree model it parametrises (parameters are processed before x)"""
+    return {'id': i, 'type': 'TransformedParameter',
+            'transform': 'torchtree.evolution.tree_height_transform.DifferenceNodeHeightTransform',
+            'parameters': {'tree_model': tree}, 'x': x}
 
 
 def J(i, ds):
@@ -248,28 +306,35 @@ def load_spec(data, dic):
     return objs
 
 
-TAGS = {'C13N': 'N', 'C13Picky': 'K', 'Parameter': 'P', 'TransformedParameter': 'T', 'Distribution': 'D',
-        'JointDistributionModel': 'J'}
+TAGS = {'C13N': 'N', 'C13S': 'S', 'C13Picky': 'K', 'Parameter': 'P', 'TransformedParameter': 'T', 'Distribution': 'D',
+        'JointDistributionModel': 'J', 'FlexibleTimeTreeModel': 'F', 'Taxa': 'X', 'Taxon': 'Y'}
 
 
 def real_tag(o):
     t = TAGS.get(type(o).__name__, 'X')
-    if isinstance(o, C13N) and o.extra:
+    if isinstance(o, (C13N, C13S)) and o.extra:
         t += 'e'  # the object saw keys it should never see (e.g. a `_` comment key that was not removed)
     return t
 
 
 def real_kids(o):
     """(role, child) edges of a loaded object, in specification order."""
-    if isinstance(o, (C13N, C13Picky)):
+    if isinstance(o, (C13N, C13Picky, C13S)):
         kids = []
+        if isinstance(o, C13S) and o.pre is not None:
+            kids.append(('pre', o.pre))
         if o.x is not None:
             kids.append(('x', o.x))
         for c in o.children:
             kids.append(('c', c))
         return kids
     if isinstance(o, TransformedParameter):
-        return [('x', o.x)]
+        kids = [('tree_model', o.transform.tree)] if hasattr(o.transform, 'tree') else []
+        return kids + [('x', o.x)]
+    if isinstance(o, FlexibleTimeTreeModel):
+        return [('taxa', o._taxa), ('h', o._internal_heights)]
+    if isinstance(o, Taxa):
+        return [('t', t) for t in o.data]
     if isinstance(o, Distribution):
         kids = [('x', o.x)]
         for name, p in o.dict_parameters.items():
